@@ -5,6 +5,8 @@ package main
 import (
 	"fmt"
 	"go/ast"
+
+	"golang.org/x/tools/go/packages"
 	"go/token"
 	"go/types"
 	"strconv"
@@ -699,10 +701,39 @@ func (u *Unit) havocTarget(st, pre *State, m string, env *SpecEnv, lit *ast.Func
 		}
 		return
 	case *SSel:
+		// type-wide with a qualified type: pkg.T.f
+		if inner, ok := x.X.(*SSel); ok {
+			if id, ok := inner.X.(*SIdent); ok {
+				if _, isVal := penv.lookupValue(id.Name); !isVal && penv.importedPkg(id.Name) != nil {
+					if ty := u.tryResolveNamed(env.home, id.Name+"."+inner.Name); ty != nil {
+						if gk, gs, _, ok := u.ghostFieldKey(types.NewPointer(ty), x.Name); ok {
+							u.heapGet(st, gk, gs)
+							u.havocHeap(st, gk)
+							return
+						}
+						if s, ok := ty.Underlying().(*types.Struct); ok {
+							for i := 0; i < s.NumFields(); i++ {
+								if s.Field(i).Name() == x.Name {
+									key := u.heapKeyField(u.sortOf(ty), x.Name)
+									u.heapGet(st, key, "(Array Int "+u.sortOf(s.Field(i).Type())+")")
+									u.havocHeap(st, key)
+									return
+								}
+							}
+						}
+					}
+				}
+			}
+		}
 		// type-wide: T.f
 		if id, ok := x.X.(*SIdent); ok && env.home != nil {
 			if _, isVal := penv.lookupValue(id.Name); !isVal {
 				if tn, ok := env.home.Types.Scope().Lookup(id.Name).(*types.TypeName); ok {
+					if gk, gs, _, ok := u.ghostFieldKey(types.NewPointer(tn.Type()), x.Name); ok {
+						u.heapGet(st, gk, gs)
+						u.havocHeap(st, gk)
+						return
+					}
 					if s, ok := tn.Type().Underlying().(*types.Struct); ok {
 						so := u.sortOf(tn.Type())
 						for i := 0; i < s.NumFields(); i++ {
@@ -718,6 +749,10 @@ func (u *Unit) havocTarget(st, pre *State, m string, env *SpecEnv, lit *ast.Func
 			}
 		}
 		base := penv.eval(x.X)
+		if gk, gs, _, ok := u.ghostFieldKey(base.Ty, x.Name); ok {
+			u.havocAt(st, gk, gs, base.T)
+			return
+		}
 		if pt, ok := isPointer(base.Ty); ok {
 			s := structOf(base.Ty)
 			for i := 0; i < s.NumFields(); i++ {
@@ -1053,4 +1088,14 @@ func (u *Unit) writeBackSlice(st *State, arg ast.Expr, nv Val, pos token.Pos) {
 	default:
 		u.warnings = append(u.warnings, u.posStr(pos)+": out-parameter argument is not addressable; effects on it are lost")
 	}
+}
+
+func (u *Unit) tryResolveNamed(home *packages.Package, name string) (t types.Type) {
+	defer func() {
+		if r := recover(); r != nil {
+			t = nil
+		}
+	}()
+	ty, _ := u.resolveType(home, &STypeExpr{Kind: "name", Name: name})
+	return ty
 }
